@@ -89,11 +89,13 @@ fn eval_one(d: &[u8], desc: &str, fam: &mut Fam, ctx: &mut Ctx) {
 }
 
 fn gen_case(dna: &mut Dna, family: &Family) -> (Vec<u8>, String) {
-    let size = match dna.weighted(&[38, 38, 16, 8]) {
+    let size = match dna.weighted(&[380, 380, 160, 72, 8]) {
         0 => dna.range(2 * 1024, 8 * 1024),
         1 => dna.range(8 * 1024, 32 * 1024),
         2 => dna.range(32 * 1024, 64 * 1024),
-        _ => dna.range(64 * 1024, 160 * 1024),
+        3 => dna.range(64 * 1024, 160 * 1024),
+        // long documents: with memLevel 1-2 these have well over a thousand blocks
+        _ => dna.range(400 * 1024, 1200 * 1024),
     };
     let plain = gen_plain_sized(dna, size);
     let (d, desc) = gen_comp_family(dna, &plain, family);
